@@ -307,3 +307,70 @@ def validate_translator(mir, specs, seed, n_streams=2, length=9):
                         if abs(float(a) - b) > 1e-9 * max(1.0, abs(b)):
                             problems.append('%s %s: R=%r native=%r' % (name, mode, float(a), b))
     return count, problems
+
+
+# ------------------------------------------------------------------------------------------------
+# generic family runner used by most properties
+PMAX = 10 ** 6
+
+
+def make_periods(spec, tag='p'):
+    """spec: ints or 'p' (symbolic integer period: every period 1..PMAX at once)"""
+    ps, assume = [], []
+    for k, v in enumerate(spec):
+        if v == 'p':
+            p = z3.Int('%s%d' % (tag, k)); ps.append(p); assume.append(z3.And(p >= 1, p <= PMAX))
+        else:
+            ps.append(v)
+    return ps, assume
+
+
+def make_stream(mode, t, prefix='x'):
+    return rcore.reals(prefix, t) if mode == 'scalar' else rcore.bar_vars(prefix, t)
+
+
+def stream_assumptions(stream, kind):
+    """kind: 'any' | 'positive' | 'validbar' (0 < low <= open,close <= high, volume >= 0) | 'lowhigh' (low <= high)"""
+    out = []
+    for v in stream:
+        if isinstance(v, (tuple, list)):
+            out += rcore.bounds([x for x in v if is_sym(x)])
+            if kind in ('validbar', 'positive'): out += rcore.valid_bar(v)
+            elif kind == 'validbar-anysign': out += rcore.valid_bar(v, positive=False)
+            elif kind == 'lowhigh': out.append(v[2] <= v[1])
+        elif is_sym(v):
+            out += rcore.bounds([v])
+            if kind in ('positive', 'validbar'): out.append(v > 0)
+    return out
+
+
+def run_family(mir, fam, ops, assume, obligations_fn, seed, timeout_s, sym_obs_fn=None, bounds=None,
+               required=True, witness='perturb', exec_assume=(), int_vars=()):
+    """execute ops on the MIR, build obligations (sym_obs_fn(ops, outs, insts, ex) or obligations_fn(ops, outs)), discharge"""
+    ex = Executor(mir, assumptions=list(exec_assume))
+    try:
+        outs, insts = run_ops_r(ex, ops)
+        obs = sym_obs_fn(ops, outs, insts, ex) if sym_obs_fn else obligations_fn(ops, outs)
+    except (Unsupported, PathDead) as e:
+        return fam_result(fam, 'R', 'undecided', detail='R cannot encode: %r' % (e,), bounds=bounds, required=required,
+                          functions=sorted(ex.called), lib_models=sorted(ex.lib_called))
+    wit = None
+    if witness == 'perturb' and obligations_fn is not None:
+        def wit():
+            exp = obligations_fn(ops, [None if o is None else [x + 1 for x in o] for o in outs])
+            cand = [o.bad for o in exp if is_sym(o.bad) or o.bad is True]
+            return O.or_(*cand[-2:]) if cand else z3.BoolVal(True)
+    elif witness == 'perturb_pm' and obligations_fn is not None:
+        def wit():
+            big = F(10) ** 17
+            cands = []
+            for sgn in (1, -1):
+                exp = obligations_fn(ops, [None if o is None else [o[0] + sgn * big] + list(o[1:]) for o in outs])
+                cands += [o.bad for o in exp if is_sym(o.bad) or o.bad is True][-2:]
+            return O.or_(*cands) if cands else z3.BoolVal(False)
+    elif callable(witness):
+        wit = lambda: witness(ops, outs, insts, ex)
+    r = discharge(ex, ops, outs, obs, list(assume) + list(exec_assume), obligations_fn, seed=seed, timeout_s=timeout_s,
+                  family=fam, bounds=bounds, witness_fn=wit, int_vars=list(int_vars))
+    r['required'] = required
+    return r
